@@ -164,6 +164,7 @@ pub fn run(o: &Opts) -> serde_json::Value {
             }
             if rng.gen_bool(0.6) {
                 plan.error_at = Some(rng.gen_range(0..refills));
+                plan.error_kind = rng.gen_range(0..crate::env::ERROR_KINDS.len());
             }
         }
         let src = if o.sources == "slice" {
@@ -312,6 +313,7 @@ pub fn record_source(out: &str, seed: u64, n: usize, max_len: usize) -> serde_js
             }
             if rng.gen_bool(0.5) {
                 plan.error_at = Some(rng.gen_range(0..nbytes + 2));
+                plan.error_kind = rng.gen_range(0..crate::env::ERROR_KINDS.len());
             }
         }
         let is_async = rng.gen_bool(0.4);
